@@ -4,7 +4,7 @@
    model's atomicity assumption (each event touches one channel / the semaphore / the WaitGroup /
    shard-confined state) is what a data race would falsify.  `go test -race` runs of the harness are
    supporting evidence in the thorough tier, never a substitute for these theorems. *)
-From Verif Require Import Base.ListX Batch.Split Batch.Shard Batch.Lts Batch.Resp.
+From Verif Require Import Base.ListX Batch.Split Batch.Shard Batch.Lts Batch.Resp Batch.Prod.
 
 (* Every interleaving of shard loops, export goroutines, Shutdown: never more than max_concurrency
    exports in flight (processor-wide, hence per metadata combination). *)
@@ -80,6 +80,23 @@ Theorem C11_spawn_precondition : forall d w c trig s s1 e,
   (tuples_for w (s_tuples d e) + pend_for w (pending d s1) = pend_for w (pending d s))%N.
 Proof. intros d w c trig s s1 e HI Hp H. exact (send_items_for d w c trig s s1 e HI Hp H). Qed.
 Print Assumptions C11_spawn_precondition.
+
+(* The product of the two models (Batch/Prod.v): an export goroutine finishes (deferred Done / Release) only when it has
+   answered or skipped every tuple of its batch, and delivers only while it is in its responding phase.  No deadlock in
+   the product — once Shutdown has been called, some step of the processor itself is enabled until Shutdown returns,
+   with no help from the environment (no new request, no cancellation) — and Shutdown returns only when every loop has
+   exited, no export is in flight and every export has answered all its callers. *)
+Theorem C11_product_progress : forall lim evs s,
+  prun (pinit lim) evs = Some s -> shutdown_called (pl s) = true -> shutdown_returned (pl s) = false ->
+  exists e, pstep s e <> None /\ pinternal e.
+Proof. exact prod_progress. Qed.
+Print Assumptions C11_product_progress.
+
+Theorem C11_product_drain : forall lim evs s,
+  prun (pinit lim) evs = Some s -> shutdown_returned (pl s) = true ->
+  alive (pl s) = 0%N /\ in_flight (pl s) = 0%N /\ Forall (fun q => q = []) (queues (pr s)).
+Proof. exact prod_drain. Qed.
+Print Assumptions C11_product_drain.
 
 (* the trace check used on the logged runs only accepts traces of the model *)
 Theorem C11_resp_check_sound : forall evs, raccepts evs = true -> exists full st, rrun rinit full = Some st.
